@@ -114,6 +114,7 @@ class Spec:
             M5.stale_loop_variable(repo, col, anchors)
             M5.identity_as_key(repo, col, anchors)
             M5.memo_invalidated(repo, col, anchors)
+            M5.memoised_one_shot(repo, col, anchors)
             M5.shared_default_object_mutated(repo, col, anchors)
             for o in col.obs:
                 ln = None
